@@ -4,7 +4,7 @@ import DashLive.Model.ClearKey
 Model of the WRMHEADER text for property C11:
 
 * `PlayReady.generate_wrmheader` (dashlive/drm/playready.py:170-234): the template
-  context (little-endian key ids, checksums, `cfgs`, `la_url.format(...)`), the choice
+  context (little-endian key ids, checksums, `cfgs`, `expand_la_url`), the choice
   of the header version (lines 214-229 with `minimum_header_version`, 378-395), the
   whitespace clean-up `re.sub(r'[\r\n]', '', xml)`, `re.sub(r'>\s+<', '><', xml)`;
 * the Jinja rendering of `templates/drm/wrmheader4x.xml` as an interpreter over the
@@ -203,19 +203,19 @@ def joinComma : List Text → Text
   | [x] => x
   | x :: xs => x ++ [44] ++ joinComma xs
 
-/-- `la_url.format(cfgs=…, default_kid=…, kids=…)` for the two documented fields and the
-brace escapes; `none` = any other use of `{`/`}` (KeyError / ValueError / `{kids}`: not modelled) -/
+/-- `PlayReady.expand_la_url` (after `fix:` af2fd45): one left-to-right pass of
+`re.sub(r'\{(cfgs|default_kid|kids)\}', …)` – exactly these place holders are replaced, every
+other brace stays as it is, inserted text is not scanned again.  `none` = the URL contains
+`{kids}` (replaced by the `repr` of a list of `bytes`: not modelled). -/
 def formatUrl (cfgs defaultKidHex : Text) : Nat → Text → Option Text
   | 0, _ => none
   | _, [] => some []
-  | fuel + 1, 123 :: 123 :: rest => (formatUrl cfgs defaultKidHex fuel rest).map (123 :: ·)
-  | fuel + 1, 125 :: 125 :: rest => (formatUrl cfgs defaultKidHex fuel rest).map (125 :: ·)
   | fuel + 1, 123 :: 99 :: 102 :: 103 :: 115 :: 125 :: rest =>
     (formatUrl cfgs defaultKidHex fuel rest).map (cfgs ++ ·)
   | fuel + 1, 123 :: 100 :: 101 :: 102 :: 97 :: 117 :: 108 :: 116 :: 95 :: 107 :: 105 :: 100 :: 125 :: rest =>
     (formatUrl cfgs defaultKidHex fuel rest).map (defaultKidHex ++ ·)
-  | fuel + 1, c :: rest =>
-    if c = 123 || c = 125 then none else (formatUrl cfgs defaultKidHex fuel rest).map (c :: ·)
+  | _ + 1, 123 :: 107 :: 105 :: 100 :: 115 :: 125 :: _ => none
+  | fuel + 1, c :: rest => (formatUrl cfgs defaultKidHex fuel rest).map (c :: ·)
 
 /-- `PlayReady.TEST_LA_URL` -/
 def testLaUrl : Text :=
@@ -227,7 +227,7 @@ def testLaUrl : Text :=
 /-- the context of lines 176-212.  `Enc` = AES-128-ECB of one block, `keys` in dictionary
 order, `defaultKid` = the (big-endian) key id `default_kid.lower()` names, `la` = the licence
 URL template (`none` → `TEST_LA_URL`).  `none`: default key id not among the keys
-(`KeyError`) or a licence URL outside the modelled `format` subset. -/
+(`KeyError`) or a licence URL with the unmodelled `{kids}` place holder. -/
 def buildCtx (Enc : Bytes → Bytes → Bytes) (sl : Nat) (keys : List KeyInfo) (defaultKid : Bytes)
     (la : Option Text) (custom : List Custom) : Option Ctx :=
   match keys.find? (·.kid = defaultKid) with
